@@ -32,7 +32,10 @@ def NT_C18(r): return " ; S" in r["arg"] or "stop0=1" in r["arg"] or "| S " in r
 
 LANG_NOTE = ("Coq kernel; no axioms; hand-written character-level model of the nom parsers (src/lang/ast.rs, prog.rs), of Scope/compile_expr/compile_prog (datapath.rs), "
              "lang::compile (mod.rs) and the image encoder (serialize.rs); tied to the code by compiling the same byte strings with portus::lang and with the extracted model and comparing "
-             "image bytes and the scope's answer (class, index, volatility, type and initial value) for every name occurring in the text.")
+             "image bytes and the scope's answer (class, index, volatility, type and initial value) for every name occurring in the text. "
+             "The static tables (operator spellings and commands of ast.rs, the built-in names of Scope::new, the opcodes, class codes, index limits and immediate bound of serialize.rs) "
+             "are additionally read from the source on every run by lib/gen_langtables.py (regular expressions; anything unrecognised becomes an empty table) into gen/LangTables.v and proved "
+             "equal to the model's tables (Lang/TablesTie.v; obligations C03_source_*, C13_source_*, C14_source_*, C20_source_*).")
 
 NOT_CLAIMED = {}
 
@@ -112,7 +115,6 @@ PROPS = {
     },
     "C09": {
         'coq': 'Properties/C09.v',
-        "pre": lambda: __import__("subprocess").run([__import__("sys").executable, __import__("os").path.join(__import__("os").path.dirname(__import__("os").path.abspath(__file__)), "gen_flowkey.py")], check=True, stdout=__import__("subprocess").DEVNULL),
         'streams': ['loop', 'loopadv'],
         'level_text': "C09_frame: a message from address a leaves every binding (b, s), b<>a, untouched; C09_restart_discards_own_flows_only; C09_handle_origin (invariant over all histories) and C09_commands_go_to_origin: every handle command is sent to the creating address with the flow's id.",
         'level_note': 'Coq kernel; no axioms; hand-written model of run_inner (src/run.rs), Datapath/Report (src/lib.rs) and Backend::next, with user callbacks and send failures as arbitrary oracles; tied to the code by running RunBuilder::run inline over a scripted Ipc with recording algorithms on the same histories (model and implementation logs compared after sorting hash-ordered DROP/INSTALL batches and renaming uids through the install messages). Assumes handles are used only inside the three callbacks.',
@@ -226,7 +228,6 @@ PROPS = {
     },
     "C17": {
         "coq": "Properties/C17.v",
-        "pre": lambda: __import__("subprocess").run([__import__("sys").executable, __import__("os").path.join(__import__("os").path.dirname(__import__("os").path.abspath(__file__)), "gen_uidops.py")], check=True, stdout=__import__("subprocess").DEVNULL),
         "level_text": "PARTIAL. C17_unique proves for every number of threads, compilations and every interleaving of their atomic operations that the uids handed out are "
                       "pairwise distinct; the operation list it is about (gen/UidOps.v) is regenerated on every run from the body of get_next_uid! by a small translator, and the "
                       "proof term contains eq_refl : is_atomic uid_ops = true, which stops type-checking if the macro is no longer a single fetch_add. Hardware atomicity of "
@@ -293,14 +294,16 @@ PROPS = {
     },
     "C20": {
         "coq": "Properties/C20.v",
-        "level_text": "PROVED for the parser and for layout invariance. The documented grammar is the relation lay_prog (Lang/Layout.v) between an abstract program and a text: any runs of "
+        "level_text": "PROVED. The documented grammar is the relation lay_prog (Lang/Layout.v) between an abstract program and a text: any runs of "
                       "space/tab/CR/LF between tokens (empty wherever two tokens cannot fuse), either spelling of each operator, an optional newline-terminated comment before each event and any "
-                      "number among the statements of each event. C20_grammar_parses: every layout of every abstract program is parsed (with the fuel new_with_scope uses) to exactly that program. "
+                      "number among the statements of each event. C20_grammar_accepted (Lang/Accept.v): every layout of every abstract program that is well typed and within the register limits "
+                      "(record accepts: declared names distinct and not built in, literal initial values that fit the immediate, at most 16 report and 16 control variables, at most 6 locals, "
+                      "conditions and statements typed by the documented discipline with at most 8 operator results each) compiles AND serializes (compile_and_serialize = Ok). "
+                      "C20_grammar_parses: every layout is parsed (with the fuel new_with_scope uses) to exactly its program. "
                       "C20_layouts_compile_alike: any two layouts of one program give the same compile result, image and scope (Ok or the same error); C20_compile_is_a_function_of_the_program. "
-                      "Non-vacuity: a compact and a spread-out text with comments and both spellings are proved to be layouts of one program (Lang/LayoutExample.v). "
-                      "NOT a theorem: that lowering and the encoder accept every well-typed program within the register limits (C01 proves what an accepted program means, C10 that nothing panics); "
-                      "this and compile-twice determinism of the real compiler are covered by the layout stream: 8 (thorough 40) random layouts per generated program must give a byte-identical image "
-                      "and identical name->register map; the unchanged source is compiled twice as well (accepted fraction reported).",
+                      "Non-vacuity: a compact and a spread-out text with comments and both spellings are proved to be layouts of one program, and that program satisfies accepts "
+                      "(Lang/LayoutExample.v, AcceptExample.v). Compile-twice determinism of the real compiler and the tie of parser/lowering/encoder to the code are covered by the layout stream: "
+                      "8 (thorough 40) random layouts per generated program must give a byte-identical image and identical name->register map; the unchanged source is compiled twice as well.",
         "level_note": LANG_NOTE,
         "streams": ["c20"],
         "rule": "500 generated well-typed programs (thorough 6000) x (1 recompilation + 8/40 layout variants): whitespace runs of length 0..6 over {space, tab, CR, LF} between all tokens "
